@@ -24,6 +24,20 @@ use super::*;
 use crate::__vmap::CAP;
 
 const NCODE: u8 = 6;
+
+/// Alphabet switch (set once at the start of a harness; constant-folded by CBMC):
+///   false: SIMPLE  keys [c], c in 0..3 (one one-byte component); prefixes [] and [c]
+///   true : MIXED   the six compound keys described above (keys that are prefixes of one another)
+static mut MIXED: bool = false;
+fn mixed() -> bool {
+    unsafe { MIXED }
+}
+fn set_mixed(m: bool) {
+    unsafe { MIXED = m }
+}
+fn ncode() -> u8 {
+    if mixed() { 6 } else { 3 }
+}
 const NC: usize = 6;
 type FlatArr = [Option<u8>; NC];
 /// Flat model plus the set of keys that occur anywhere in the chain (live or tombstoned): the
@@ -67,6 +81,9 @@ fn shape(code: u8) -> (usize, u8, u8) {
     if r == 0 { (1, a, 0) } else { (2, a, r - 1) }
 }
 fn mk_key(code: u8) -> Keys {
+    if !mixed() {
+        return crate::storage::Keys(Box::new([bx(code)]));
+    }
     let (n, a, b) = shape(code);
     if n == 1 {
         crate::storage::Keys(Box::new([bx(a)]))
@@ -75,6 +92,12 @@ fn mk_key(code: u8) -> Keys {
     }
 }
 fn code_of(keys: &[Bytes]) -> Option<u8> {
+    if !mixed() {
+        if keys.len() != 1 || keys[0].len() != 1 || keys[0][0] > 2 {
+            return None;
+        }
+        return Some(keys[0][0]);
+    }
     if keys.is_empty() || keys.len() > 2 {
         return None;
     }
@@ -97,13 +120,16 @@ fn has_prefix(c: u8, p: u8) -> bool {
     if p == 0 {
         return true;
     }
+    if !mixed() {
+        return c == p - 1;
+    }
     let (pn, pa, pb) = shape(p - 1);
     let (cn, ca, cb) = shape(c);
     if pn == 1 { ca == pa } else { cn == 2 && ca == pa && cb == pb }
 }
 fn any_code() -> u8 {
     let c: u8 = kani::any();
-    kani::assume(c < NCODE);
+    kani::assume(c < ncode());
     c
 }
 
@@ -264,7 +290,7 @@ fn check_exact<Q: Query>(p: &Q, m: &Flat) {
 /// Returns (items listed, prefix code).
 fn check_prefix<Q: Query>(p: &Q, m: &Flat, max_items: usize) -> (usize, u8) {
     let pc: u8 = kani::any();
-    kani::assume(pc <= NCODE);
+    kani::assume(pc <= ncode());
     let pk = mk_prefix(pc);
     let mut it = match p.query_prefix("f", &pk) {
         Ok(it) => it,
@@ -338,26 +364,8 @@ fn index_chain(nidx: usize, per: usize, prefix: bool) -> (usize, u8) {
     listed
 }
 
-#[kani::proof]
-#[kani::unwind(7)]
-fn c12_index_chain_exact() {
-    index_chain(3, 2, false);
-}
 
-#[kani::proof]
-#[kani::unwind(7)]
-fn c12_index_chain_prefix() {
-    let (got, pc) = index_chain(2, 2, true);
-    kani::cover!(got >= 2, "prefix query over two indexes with two or more results");
-    kani::cover!((got >= 1) & (pc > 0), "non-trivial prefix with a result");
-}
 
-#[kani::proof]
-#[kani::unwind(7)]
-fn c12_index_chain_prefix_deep() {
-    let (got, _) = index_chain(3, 2, true);
-    kani::cover!(got >= 3, "prefix query over three indexes with three or more results");
-}
 
 // ---------------------------------------------------------------------------------------------
 // in-flight perspective on top of an in-memory prior on top of committed indexes
@@ -408,26 +416,8 @@ fn perspective_chain(ntop: usize, nmid: Option<usize>, nidx: usize, per: usize, 
     listed
 }
 
-#[kani::proof]
-#[kani::unwind(7)]
-fn c12_perspective_chain_exact() {
-    perspective_chain(2, Some(2), 2, 2, false);
-}
 
-#[kani::proof]
-#[kani::unwind(7)]
-fn c12_perspective_chain_prefix() {
-    let (got, pc) = perspective_chain(2, Some(1), 1, 2, true);
-    kani::cover!(got >= 2, "prefix query across perspective, prior perspective and index");
-    kani::cover!((got >= 1) & (pc > 0), "non-trivial prefix with a result");
-}
 
-#[kani::proof]
-#[kani::unwind(7)]
-fn c12_perspective_chain_prefix_deep() {
-    let (got, _) = perspective_chain(2, Some(2), 2, 2, true);
-    kani::cover!(got >= 3, "three or more results");
-}
 
 // ---------------------------------------------------------------------------------------------
 // writes and replayed updates behave like map updates (any state, any prior kind)
@@ -463,30 +453,9 @@ fn update_step(ntop: usize, nmid: Option<usize>, nidx: usize, replay: bool, pref
     listed
 }
 
-#[kani::proof]
-#[kani::unwind(7)]
-fn c12_write_step_over_index() {
-    update_step(2, None, 1, false, false);
-}
 
-#[kani::proof]
-#[kani::unwind(7)]
-fn c12_replay_step_over_index() {
-    update_step(2, None, 1, true, false);
-}
 
-#[kani::proof]
-#[kani::unwind(7)]
-fn c12_replay_step_no_prior() {
-    update_step(2, None, 0, true, false);
-}
 
-#[kani::proof]
-#[kani::unwind(7)]
-fn c12_write_step_prefix() {
-    let (got, _) = update_step(1, Some(1), 1, false, true);
-    kani::cover!(got >= 2, "two or more results after the write");
-}
 
 // ---------------------------------------------------------------------------------------------
 // compaction
@@ -579,21 +548,48 @@ fn compact_case(nidx: usize, per: usize, prefix: bool) -> (usize, u8) {
     listed
 }
 
-#[kani::proof]
-#[kani::unwind(7)]
-fn c12_compact_exact() {
-    compact_case(2, 2, false);
+// ---------------------------------------------------------------------------------------------
+// proof harnesses (sizes: see checks/C12.json)
+// ---------------------------------------------------------------------------------------------
+macro_rules! harness {
+    ($name:ident, $mixed:expr, $body:expr) => {
+        #[kani::proof]
+        #[kani::unwind(7)]
+        fn $name() {
+            set_mixed($mixed);
+            let _ = $body;
+        }
+    };
+    ($name:ident, $mixed:expr, $body:expr, $min:expr, $text:expr) => {
+        #[kani::proof]
+        #[kani::unwind(7)]
+        fn $name() {
+            set_mixed($mixed);
+            let (got, _pc) = $body;
+            kani::cover!(got >= $min, $text);
+        }
+    };
 }
 
-#[kani::proof]
-#[kani::unwind(7)]
-fn c12_compact_deep() {
-    compact_case(3, 1, false);
-}
-
-#[kani::proof]
-#[kani::unwind(7)]
-fn c12_compact_prefix() {
-    let (got, _) = compact_case(2, 2, true);
-    kani::cover!(got >= 2, "prefix query on the compacted index with two or more results");
-}
+// committed index chains
+harness!(c12_index_chain_exact, false, index_chain(2, 2, false));
+harness!(c12_index_chain_exact_deep, false, index_chain(3, 2, false));
+harness!(c12_index_chain_prefix, false, index_chain(2, 2, true), 2, "prefix query over two indexes, two or more results");
+harness!(c12_index_chain_prefix_deep, false, index_chain(3, 1, true), 2, "prefix query over three indexes, two or more results");
+harness!(c12_index_chain_prefix_mixed, true, index_chain(2, 2, true), 2, "compound keys: two or more results");
+// perspective -> prior perspective -> indexes
+harness!(c12_perspective_chain_exact, false, perspective_chain(1, Some(1), 1, 1, false));
+harness!(c12_perspective_chain_exact_deep, false, perspective_chain(2, Some(2), 2, 2, false));
+harness!(c12_perspective_chain_prefix, false, perspective_chain(1, Some(1), 1, 1, true), 2, "prefix query across perspective, prior perspective and index");
+harness!(c12_perspective_chain_prefix_deep, false, perspective_chain(2, Some(1), 2, 1, true), 2, "two or more results");
+harness!(c12_perspective_chain_prefix_mixed, true, perspective_chain(1, Some(1), 1, 1, true), 2, "compound keys: two or more results");
+// writes / replayed updates
+harness!(c12_write_step_over_index, false, update_step(1, None, 1, false, false));
+harness!(c12_replay_step_over_index, false, update_step(1, None, 1, true, false));
+harness!(c12_replay_step_no_prior, false, update_step(2, None, 0, true, false));
+harness!(c12_write_step_prefix, false, update_step(1, Some(1), 1, false, true), 2, "two or more results after the write");
+harness!(c12_write_step_mixed, true, update_step(1, None, 1, false, false));
+// compaction
+harness!(c12_compact_exact, false, compact_case(2, 1, false));
+harness!(c12_compact_deep, false, compact_case(3, 1, false));
+harness!(c12_compact_prefix, false, compact_case(2, 2, true), 2, "prefix query on the compacted index, two or more results");
